@@ -320,10 +320,30 @@ func (f CallableFunctionSchema) Call(arguments []any) (any, error) {
 			gotArgs,
 		), false)
 	}
-	// Convert to reflect values
+	// Convert to reflect values. reflect panics on arguments that are not assignable to the parameter, so
+	// that is checked here and reported as an invalid call.
+	handlerType := f.Handler.Type()
 	args := make([]reflect.Value, gotArgs)
 	for i := 0; i < gotArgs; i++ {
+		paramType := handlerType.In(i)
+		if arguments[i] == nil {
+			// An untyped nil is a value of every interface type (like any), and of no other type.
+			if paramType.Kind() != reflect.Interface {
+				return nil, NewFunctionCallError(fmt.Errorf(
+					"nil argument at index %d sent to function with ID '%s'. Expected %s",
+					i, f.ID(), paramType,
+				), false)
+			}
+			args[i] = reflect.Zero(paramType)
+			continue
+		}
 		args[i] = reflect.ValueOf(arguments[i])
+		if !args[i].Type().AssignableTo(paramType) {
+			return nil, NewFunctionCallError(fmt.Errorf(
+				"incorrect type of arg at index %d sent to function with ID '%s'. Expected %s, got %s",
+				i, f.ID(), paramType, args[i].Type(),
+			), false)
+		}
 	}
 	result := f.Handler.Call(args)
 	gotReturns := len(result)
